@@ -90,6 +90,7 @@ package cache
 //@   ensures [C03] result1 == nil && result0.Stale ==> result0.Metadata.Expires < now
 //@   ensures [C03] result1 == nil && !result0.Stale ==> result0.Metadata.Expires >= old(now)
 //@   ensures [C15] result1 == nil ==> result0.Expires == result0.Metadata.Expires
+//@   ensures [C05] result1 == nil ==> closedh(result0.Data) == 0
 
 //@ props C01 C06 C09 C16
 //@ func Cache.Cache
